@@ -119,6 +119,7 @@ type FnCtx struct {
 	goSeen   bool
 	usedLemmas []string
 	sortWitness [][2]string
+	callOrdOf, retOrdOf, storeOrdOf map[ssa.Instruction]int
 	seeds []string
 	termSorts map[string]string
 	known map[string]map[string]string // heap version -> alloc address -> stored value (syntactic store forwarding)
